@@ -172,8 +172,29 @@ impl Scenario for C06 {
                 acts.push(Act::Check { a: 1 });
             }
         }
+        // one run in forty: worker 0 is a small sketch filled column by column up to the last window
+        // positions (54..59 whole columns, C < 59.375 K), the other workers stay within its columns
+        let deep = !straddle && rng.chance(1, 40);
+        if deep {
+            workers[0] = rng.range(4, 6) as u8;
+            let k = 1u32 << workers[0];
+            let cols = rng.range(54, 59) as u32;
+            for c in 0..cols {
+                for r in 0..k {
+                    if rng.chance(1, 50) {
+                        continue;
+                    }
+                    acts.push(Act::WUpdate { w: 0, rc: (r << 6) | c });
+                }
+            }
+            for w in 1..nw {
+                for _ in 0..rng.below(30) {
+                    acts.push(Act::WUpdate { w: w as u8, rc: (rng.next_u32() << 6) | rng.below(cols as u64 - 1) as u32 });
+                }
+            }
+        }
         for (w, &lg_k) in workers.iter().enumerate() {
-            if straddle && w < 2 {
+            if deep || (straddle && w < 2) {
                 continue;
             }
             let k = 1usize << lg_k;
